@@ -52,6 +52,9 @@ def clsOfName (s : String) : Option Cls :=
   | "randomExponential" => some .randomExponential | "randomImpulseSequence" => some .randomImpulseSequence
   | "markov" => some .markov
   | "constP" => some .constP | "tupP" => some .tupP
+  | "metropolis" => some .metropolis | "sequenceAction" => some .sequenceAction
+  | "patternGeneratorAction" => some .patternGeneratorAction | "func" => some .func
+  | "keyTonic" => some .keyTonic | "keyScale" => some .keyScale
   | _ => Option.none
 
 def parseRat (s : String) : Option Rat :=
